@@ -665,7 +665,11 @@ class InProtocolBase(ProtocolMixin):
                 if isinstance(string, six.text_type):
                     string = string.encode('utf8')
 
-            retval = datetime.strptime(string, dt_format)
+            try:
+                retval = datetime.strptime(string, dt_format)
+            except ValueError as e:
+                raise ValidationError(string,
+                                   "%%r: %s" % str(e).replace("%", "%%"))
 
             astz = cls_attrs.as_timezone
             if astz:
